@@ -42,7 +42,8 @@ TABLE = {
              "placed as transcribed in the scenario programs; the control skeleton is bound by the C01/C02/C07 replays run inside this check; "
              "lock-based components: the lock-grain threaded replays of queue, thread pool and scheduler (thread mode) run inside this check "
              "(a moved/removed/added lock operation or a guarded state change after the unlock diverges), and so does the lock-grain replay of "
-             "PublisherConc.tla (one publishing/closing/kicking thread against subscriber threads using blocking, polled and coroutine next())",
+             "PublisherConc.tla (one publishing/closing/kicking thread against subscriber threads using blocking, polled and coroutine next()) and of "
+             "AggregatorConc.tla (generator_aggregator's internal queue: sources pushing from their own threads against the aggregate's pop)",
         design_ref="6/C03, 3.2, 4.5, 9.1, 9.8",
         technique="explicit TLA+ weak-memory model checked by TLC, memory orders extracted from the executing code (conformance binding by schedule replay)"),
     "C04": dict(
@@ -76,7 +77,12 @@ TABLE = {
              "RoundRobin, FullDrain, CoroMode. Every program (quick: a sample biased to contended deques) is executed on the real "
              "coro_queue/suspend_point/async/future/mutex/queue and must reproduce the specification's event history exactly, including the "
              "content of the real deque and is_active() at every event, the final state and per-coroutine resume counts. Thorough adds "
-             "sanitizers and random programs of 5 coroutines x 5 steps from TLC simulation, each replayed.",
+             "sanitizers and random programs of 5 coroutines x 5 steps from TLC simulation, each replayed. Three further shapes are covered: a "
+             "suspend-point variable reused through = / << and then awaited, cleared or destroyed; coroutines moved onto a real one-worker "
+             "thread_pool by co_await pool, pool.resume(sp), co_await pool(awaitable) and pool.run(async), which then ready others and pause "
+             "there (coroutine mode, run-to-suspension, FIFO and full drain are required on the worker's own queue; the two threads are "
+             "serialised by the harness); long single-deque histories with up to 40 simultaneously ready coroutines after a partial drain. "
+             "If the deque's representation changes, the replayer falls back to a build without deque snapshots (recorded in the evidence).",
         note="bounds: exhaustive N<=3-4 coroutines x 2-3 steps (up to 3*10^6 states per config), N=5 x 5 steps by simulation only; one thread, one "
              "mutex, one queue<void>; deadlock-free programs only. For a nested future-returning start() 'the running coroutine' is read as the "
              "innermost activation (the library's documented rule); the strict reading fails for that idiom and is recorded as an evidence note, "
@@ -225,11 +231,19 @@ TABLE = {
              "over scripted generator<int>/generator<int,int> sources in several consumer implementations (plain code, hand-resumed "
              "continuations nested inside the push, one consumer coroutine, own thread under the controlled scheduler with the completing "
              "thread in two release orders) and all access styles, comparing after every public call the observations, the real queue content "
-             "and waiter slot, every source's state, RAII and parameter counters and received arguments, and at the end an exact allocation balance.",
+             "and waiter slot, every source's state, RAII and parameter counters and received arguments, and at the end an exact allocation balance. "
+             "AggregatorConc.tla models the aggregate with asynchronous sources whose steps complete concurrently on their own threads and the "
+             "consumer on its own thread at the grain of the internal queue's critical sections (per-thread program counters; one action per "
+             "critical section and per piece of code after an unlock); TLC checks Aggregator.tla's C14 invariants (through INSTANCE) plus "
+             "LockDiscipline, Conservation, NoStuckState and Termination over all interleavings for 2-3 sources. Every edge (capped cover in quick) "
+             "is replayed on real threads under the controlled scheduler with the queue's mutex virtual, comparing after every step each thread's "
+             "pending operation, the observations, queue content and waiter slot, source states and counters, and the guarded state before/after "
+             "every post-unlock step.",
         note="bounds: quick 0-3 sources, scripts <=3 steps (<=2 for 3 sources), <=5 accesses, 26k paths x 2 modes; thorough 3 sources x <=3 steps, 145k "
              "paths x 4 modes under ASan/UBSan, 4-5 sources narrow plus 30k simulated behaviours each; _count not directly observable; when several "
              "sources throw only the last caught exception is reported (mirrored from the code, assumed to satisfy 'is reported'); thread "
-             "interleavings limited to blocked-consumer release orders; TCB: TLC, vsched, the replayer's probes and projection",
+             "interleavings: all at lock grain for 2-3 always-asynchronous sources pinned to one thread each, accesses issued from the consumer's thread; "
+             "atomic-grain interleavings limited to blocked-consumer release orders; TCB: TLC, vsched, the replayer's probes and projection",
         design_ref="6/C14, 3.10"),
     "C15": dict(
         claimed=True,
